@@ -1,0 +1,50 @@
+//! Verification hooks.  This module exists only with the `verif_hooks` feature.
+//! Events get their sequence number while the log mutex is held,
+//! so the log order is the order in which the hooks ran.
+use std::sync::{Mutex, PoisonError};
+
+#[derive(Clone, Debug)]
+pub struct Record {
+    pub seq: u64,
+    pub kind: &'static str,
+    pub a: u64,
+    pub b: u64,
+}
+
+static LOG: Mutex<Option<Vec<Record>>> = Mutex::new(None);
+
+/// Starts recording.  Discards any previous recording.
+pub fn start() {
+    *LOG.lock().unwrap_or_else(PoisonError::into_inner) = Some(Vec::new());
+}
+
+/// Stops recording and returns the records.
+pub fn take() -> Vec<Record> {
+    LOG.lock()
+        .unwrap_or_else(PoisonError::into_inner)
+        .take()
+        .unwrap_or_default()
+}
+
+/// Returns a copy of the records so far.  Keeps recording.
+pub fn snapshot() -> Vec<Record> {
+    LOG.lock()
+        .unwrap_or_else(PoisonError::into_inner)
+        .clone()
+        .unwrap_or_default()
+}
+
+pub fn emit(kind: &'static str, a: u64, b: u64) {
+    if let Some(records) = LOG.lock().unwrap_or_else(PoisonError::into_inner).as_mut() {
+        let seq = records.len() as u64;
+        records.push(Record { seq, kind, a, b });
+    }
+}
+
+/// Emits an event when dropped.
+pub struct EmitOnDrop(pub &'static str, pub u64);
+impl Drop for EmitOnDrop {
+    fn drop(&mut self) {
+        emit(self.0, self.1, 0);
+    }
+}
